@@ -47,6 +47,9 @@ import (
 
 const (
 	c1, c2 = "c1", "c2"
+	// chain lifecycle scenario: a chain that governance removes, one that it adds
+	// later, and an id no chain ever had
+	cOld, cNew, cNever = "old", "new", "zz"
 	nV     = 5 // v0..v3 carry the stake vectors; v4 (10^6, never in a scenario) only satisfies InitGenesis
 	// the integer constant of the bridge contract: floor(2^33/3)
 	threshold = 2_863_311_530
@@ -55,7 +58,7 @@ const (
 
 var (
 	two32    = new(big.Int).Lsh(big.NewInt(1), 32)
-	chainIDs = map[string]uint64{c1: 1, c2: 2}
+	chainIDs = map[string]uint64{c1: 1, c2: 2, cOld: 3, cNew: 4}
 )
 
 func p2(n uint) *big.Int { return new(big.Int).Lsh(big.NewInt(1), n) }
@@ -135,6 +138,8 @@ func newEnv(r *report.Run, shard int) *env {
 			Fees: []treasurytypes.RelayerFeeSetting_FeeSetting{
 				{Multiplicator: sdkmath.LegacyMustNewDecFromStr("1.0"), ChainReferenceId: c1},
 				{Multiplicator: sdkmath.LegacyMustNewDecFromStr("1.0"), ChainReferenceId: c2},
+				{Multiplicator: sdkmath.LegacyMustNewDecFromStr("1.0"), ChainReferenceId: cOld},
+				{Multiplicator: sdkmath.LegacyMustNewDecFromStr("1.0"), ChainReferenceId: cNew},
 			},
 		}))
 	}
@@ -1276,10 +1281,11 @@ func run(r *report.Run, shard, nshards int, replayFile string) {
 		richNote = " The same search is first run to depth 4 with the full alphabet (every operation kind for every one of v0..v2)."
 	}
 	r.Rule = fmt.Sprintf("(P) product: 1..%d validators x stake alphabet {1,2,3,1e6,2^53-1,2^53+1,1e18,2^62} (every vector) x every subset of them with an account on a second chain; stakes set by real MsgDelegate txs + staking end-blocker, snapshot built by the valset end-block at height 50, published by the evm keeper on c1 (OnSnapshotBuilt) and on c2 (chain activated afterwards, older snapshot live there, just-in-time path); every queued UpdateValset compared with floor(2^32*share/total) in math/big, order, sum <= 2^32, quorum gate. "+
-		"(B) BFS to depth %d from %d initial states (stake vectors of v0..v2 from the same alphabet, all registered on the active chain c1, snapshot built and published) over Delegate(+1 | x2)/Undelegate(1)/Unbond (real staking txs + staking end-blocker), Jail (valset keeper, else slashing keeper)/Unjail (MsgUnjail), StakingEnd, Add/RemoveAccount(v,c1|c2), AddChain(c2), ActivateChain(c2), Build (valset end-block, h %% 50 == 0), Activate(id,c) for the two latest ids (SetSnapshotOnChain), JustInTime(c) (evm PreJobExecution), Advance31d (<=2); validators take the roles of the alphabet in a rotation that depends on the stake vector (+1/Undelegate: one validator, x2: one, Unbond: one, Jail/Unjail: two, accounts: three on c2 and one on c1).%s After every transition: every stored snapshot against its first-seen bytes, ids, current snapshot, membership/shares/total of a new snapshot against the staking module, every queued UpdateValset against the reference", maxK, depth, nvec, richNote)
+		"(B) BFS to depth %d from %d initial states (stake vectors of v0..v2 from the same alphabet, all registered on the active chain c1, snapshot built and published) over Delegate(+1 | x2)/Undelegate(1)/Unbond (real staking txs + staking end-blocker), Jail (valset keeper, else slashing keeper)/Unjail (MsgUnjail), StakingEnd, Add/RemoveAccount(v,c1|c2), AddChain(c2), ActivateChain(c2), Build (valset end-block, h %% 50 == 0), Activate(id,c) for the two latest ids (SetSnapshotOnChain), JustInTime(c) (evm PreJobExecution), Advance31d (<=2); validators take the roles of the alphabet in a rotation that depends on the stake vector (+1/Undelegate: one validator, x2: one, Unbond: one, Jail/Unjail: two, accounts: three on c2 and one on c1).%s (L) chain lifecycle BFS (quick depth 4, thorough depth 6 deadline-capped) from two initial states per stake vector (chains c1,c2,old active with v0..v2 registered on all three and a snapshot built; the same after governance removed 'old', added and activated 'new' and v0,v1 re-registered on {c1,c2,new} while v2 still holds {c1,c2,old}) over GovRemoveChain(x)/GovAddChain(old|new) (x/evm governance proposal handler; removal does not purge accounts), ActivateChain(x), SetAccounts(v,list) (real MsgAddExternalChainInfoForValidator replacing the whole list; lists {c1,c2,old},{c1,c2,new},{c1,c2,old,new} for every validator and {c1,c2},{c1,c2,zz},{c1,old,zz} for v2, zz = id no chain ever had), Jail/Unjail(v2), StakingEnd, Build. After every transition: every stored snapshot against its first-seen bytes, ids, current snapshot, membership/shares/total of a new snapshot against the staking module, every queued UpdateValset against the reference", maxK, depth, nvec, richNote)
 	r.Assumptions = []string{
 		"quorum threshold read as the integer 2863311530 = floor(2^33/3) used by the bridge contract; demanding 2863311531 (ceil) would alarm on correct code",
 		"'account on every active chain': an external chain info with that chain reference id (ValidatorSupportsAllChains compares reference ids of chains whose status is ACTIVE); only evm-typed accounts are registered, so the reading does not depend on the chain type",
+		"membership reference is computed from the ghost's own record of the operations: per validator the set of chain reference ids it last registered, per chain whether it currently exists and is ACTIVE; a validator qualifies iff every existing ACTIVE chain id is in its set (id equality; accounts for removed or unknown ids neither help nor hurt)",
 		"projection uses the accounts recorded in the snapshot (not the accounts at publication time)",
 		"order of the published set: the property text is silent; shares must be non-increasing, ties unconstrained; order of validators inside a snapshot unconstrained",
 		"'only sent when': one direction; a set that reaches the threshold but is not sent (keep-warm period, no assignable relayer) is not a violation",
@@ -1310,6 +1316,26 @@ func run(r *report.Run, shard, nshards int, replayFile string) {
 		e.phase = "P."
 		e.product(rootP, pdl, shard, nshards, maxK)
 		timing("product done")
+	}
+
+	if os.Getenv("VERIF_C10_SKIP_LIFE") == "" {
+		// (L) chain lifecycle: remove / add / activate chains through the
+		// governance handler, validators replace their whole account list.
+		e.phase = "L."
+		ld, lvec := 4, 1
+		if r.Thorough() {
+			ld, lvec = 6, 2
+		}
+		if s := os.Getenv("VERIF_C10_LIFE_DEPTH"); s != "" {
+			fmt.Sscan(s, &ld)
+		}
+		spec := e.lifeSpec(rootB, lvec, ld, deadline, shard, nshards)
+		res := search(r, spec)
+		if shard == 0 {
+			r.Extra["lifecycle_depth_completed"] = float64(res.DepthCompleted)
+		}
+		r.Extra["L.reexecuted_for_lazy_nodes"] = float64(res.Reexec)
+		r.Extra[fmt.Sprintf("L.workers_that_completed_depth_%d", res.DepthCompleted)] = 1.0
 	}
 
 	// (B)
@@ -1392,7 +1418,12 @@ func (e *env) replay(rootB, rootP sdk.Context, file string, depth int) {
 	for _, p := range m["path"].([]interface{}) {
 		path = append(path, p.(string))
 	}
-	spec := e.spec(rootB, len(bfsVectors), depth, true, time.Time{}, 0, 1)
+	var spec explore.Spec
+	if m["scenario"] == "lifecycle" {
+		spec = e.lifeSpec(rootB, 2, depth, time.Time{}, 0, 1)
+	} else {
+		spec = e.spec(rootB, len(bfsVectors), depth, true, time.Time{}, 0, 1)
+	}
 	if f := explore.Replay(spec, path); f != nil {
 		r.Violate(f.Signature, f.Message, v.Replay)
 	}
